@@ -903,11 +903,11 @@ Qed.
 (* ---------------------------------------------------------------- soundness *)
 Lemma walk_sound i : forall acts c node len t,
   node = hd 0%nat c -> len = opath_len (dfun i) 0%nat (rev c) ->
-  t = dep_time (dfun i) (lo i) (sv i) 0%nat 0 (rev c) ->
-  tw_pref (dfun i) (lo i) (hi i) (sv i) cmp0 0%nat 0 (rev c) = true ->
+  t = dep_time (tfun i) (lo i) (sv i) 0%nat 0 (rev c) ->
+  tw_pref (tfun i) (lo i) (hi i) (sv i) cmp0 0%nat 0 (rev c) = true ->
   walk_ok exact i node len t acts = true ->
   Forall (fun r => route_cost (dfun i) (opn i) r <= lim i /\
-                   tw_ok (dfun i) (opn i) (lo i) (hi i) (sv i) 0 0%nat 0 r = true) (removelast (routes_aux acts c)).
+                   tw_ok (tfun i) (opn i) (lo i) (hi i) (sv i) 0 0%nat 0 r = true) (removelast (routes_aux acts c)).
 Proof.
   induction acts as [|a r IH]; intros c node len t Hn Hl Ht Hp Hw; cbn [walk_ok routes_aux] in *.
   - constructor.
@@ -935,27 +935,26 @@ Proof.
     + refine (IH (a :: c) _ _ _ K2); [cbn [rev]; rewrite load_snoc; lia | lia].
 Qed.
 
-(* accepted (at speed 1) => every customer exactly once, nodes in range, both loads of every route within the
+(* accepted (any speed) => every customer exactly once, nodes in range, both loads of every route within the
    capacity, and for every route that is closed by a depot visit: length within the limit and all time windows met.
    NOT implied: linehauls before backhauls (never tested), and anything about the way back of a last route that the
    action list does not close with a depot visit. *)
 Theorem mtvrp_checker_sound i acts :
-  mtvrp_wf i -> tt i = dist i -> mtvrp_checker exact i acts = true ->
+  mtvrp_wf i -> mtvrp_checker exact i acts = true ->
   (forall j, (1 <= j <= n_of i)%nat -> occ j acts = 1%nat) /\
   (forall a, In a acts -> (a <= n_of i)%nat) /\
   Forall (fun r => load (dlf i) r <= cap i /\ load (dbf i) r <= cap i) (routes acts) /\
   Forall (fun r => route_cost (dfun i) (opn i) r <= lim i /\
                    tw_ok (tfun i) (opn i) (lo i) (hi i) (sv i) 0 0%nat 0 r = true) (removelast (routes acts)).
 Proof.
-  intros Hwf Hsp Hc. pose proof (wf_parts i Hwf) as (Hnn & Hcap & Hlim & Hdl0 & Hdb0 & Hnode).
-  assert (Htd : tfun i = dfun i) by (unfold tfun, dfun; rewrite Hsp; reflexivity).
+  intros Hwf Hc. pose proof (wf_parts i Hwf) as (Hnn & Hcap & Hlim & Hdl0 & Hdb0 & Hnode).
   unfold mtvrp_checker in Hc. rewrite !andb_true_iff in Hc. destruct Hc as [[[[Hs _] Hw] Hcl] Hcb].
   apply sorted_ok_iff in Hs as (_ & Hocc & Hrng).
   split; [exact Hocc|]. split; [exact Hrng|]. split.
   - pose proof (cap_sound i (dlf i) Hdl0 acts [] 0 eq_refl Hcap Hcl) as F1.
     pose proof (cap_sound i (dbf i) Hdb0 acts [] 0 eq_refl Hcap Hcb) as F2.
     unfold routes. rewrite Forall_forall in *. intros r Hr. split; [apply F1 | apply F2]; exact Hr.
-  - rewrite Htd. apply (walk_sound i acts [] 0%nat 0 0); try reflexivity. exact Hw.
+  - apply (walk_sound i acts [] 0%nat 0 0); try reflexivity. exact Hw.
 Qed.
 
 Lemma prec_ok_nobackhaul (dl' db' : nat -> Z) r : (forall x, db' x = 0) -> prec_ok dl' db' r = true.
@@ -963,10 +962,10 @@ Proof. intros H. induction r as [|x r IH]; cbn [prec_ok]; [reflexivity|]. unfold
 
 (* in particular: without backhaul customers, an accepted action list that ends at the depot is a solution *)
 Corollary mtvrp_checker_sound_nobackhaul i acts' :
-  mtvrp_wf i -> tt i = dist i -> (forall x, dbf i x = 0) ->
+  mtvrp_wf i -> (forall x, dbf i x = 0) ->
   mtvrp_checker exact i (acts' ++ [0%nat]) = true -> mtvrp_feasible i (acts' ++ [0%nat]).
 Proof.
-  intros Hwf Hsp Hnb Hc. destruct (mtvrp_checker_sound i _ Hwf Hsp Hc) as (H1 & H2 & H3 & H4).
+  intros Hwf Hnb Hc. destruct (mtvrp_checker_sound i _ Hwf Hc) as (H1 & H2 & H3 & H4).
   split; [exact H1|]. split; [exact H2|].
   unfold routes in *. rewrite routes_aux_snoc0 in *. rewrite removelast_last in H4.
   apply Forall_app. split; [|constructor; [reflexivity | constructor]].
@@ -990,27 +989,27 @@ Proof.
   destruct Hc as [[[[Hs _] _] _] _]. apply sorted_ok_iff in Hs as (_ & Hocc & _). specialize (Hocc j Hj). lia.
 Qed.
 Corollary mtvrp_checker_rejects_overload i acts r :
-  mtvrp_wf i -> tt i = dist i -> In r (routes acts) -> (cap i < load (dlf i) r \/ cap i < load (dbf i) r) ->
+  mtvrp_wf i -> In r (routes acts) -> (cap i < load (dlf i) r \/ cap i < load (dbf i) r) ->
   mtvrp_checker exact i acts = false.
 Proof.
-  intros Hwf Hsp Hr Hl. apply not_true_iff_false. intros Hc.
-  destruct (mtvrp_checker_sound i acts Hwf Hsp Hc) as (_ & _ & HF & _). rewrite Forall_forall in HF. specialize (HF r Hr). lia.
+  intros Hwf Hr Hl. apply not_true_iff_false. intros Hc.
+  destruct (mtvrp_checker_sound i acts Hwf Hc) as (_ & _ & HF & _). rewrite Forall_forall in HF. specialize (HF r Hr). lia.
 Qed.
 (* over-length route / missed window, for routes closed by a depot visit *)
 Corollary mtvrp_checker_rejects_overlength i acts r :
-  mtvrp_wf i -> tt i = dist i -> In r (removelast (routes acts)) -> lim i < route_cost (dfun i) (opn i) r ->
+  mtvrp_wf i -> In r (removelast (routes acts)) -> lim i < route_cost (dfun i) (opn i) r ->
   mtvrp_checker exact i acts = false.
 Proof.
-  intros Hwf Hsp Hr Hl. apply not_true_iff_false. intros Hc.
-  destruct (mtvrp_checker_sound i acts Hwf Hsp Hc) as (_ & _ & _ & HF). rewrite Forall_forall in HF. specialize (HF r Hr). lia.
+  intros Hwf Hr Hl. apply not_true_iff_false. intros Hc.
+  destruct (mtvrp_checker_sound i acts Hwf Hc) as (_ & _ & _ & HF). rewrite Forall_forall in HF. specialize (HF r Hr). lia.
 Qed.
 Corollary mtvrp_checker_rejects_late i acts r :
-  mtvrp_wf i -> tt i = dist i -> In r (removelast (routes acts)) ->
+  mtvrp_wf i -> In r (removelast (routes acts)) ->
   tw_ok (tfun i) (opn i) (lo i) (hi i) (sv i) 0 0%nat 0 r = false ->
   mtvrp_checker exact i acts = false.
 Proof.
-  intros Hwf Hsp Hr Hl. apply not_true_iff_false. intros Hc.
-  destruct (mtvrp_checker_sound i acts Hwf Hsp Hc) as (_ & _ & _ & HF). rewrite Forall_forall in HF. destruct (HF r Hr) as [_ H]. congruence.
+  intros Hwf Hr Hl. apply not_true_iff_false. intros Hc.
+  destruct (mtvrp_checker_sound i acts Hwf Hc) as (_ & _ & _ & HF). rewrite Forall_forall in HF. destruct (HF r Hr) as [_ H]. congruence.
 Qed.
 
 (* ---------------------------------------------------------------- completeness *)
@@ -1018,9 +1017,9 @@ Qed.
    instance-level condition under which that extra demand is harmless -- whatever the customer, serving it as late
    as allowed still leaves time to drive home *)
 Definition open_slack (i : mtvrp_inst) : Prop :=
-  forall x, (1 <= x <= n_of i)%nat -> hi i x + sv i x + dfun i x 0%nat <= hi i 0%nat.
+  forall x, (1 <= x <= n_of i)%nat -> hi i x + sv i x + tfun i x 0%nat <= hi i 0%nat.
 
-Notation okD i := (route_ok (dlf i) (dbf i) (cap i) (dfun i) (dfun i) (lim i) (opn i) (lo i) (hi i) (sv i) 0).
+Notation okD i := (route_ok (dlf i) (dbf i) (cap i) (dfun i) (tfun i) (lim i) (opn i) (lo i) (hi i) (sv i) 0).
 
 Lemma last_in (l : list nat) d : l <> [] -> In (last l d) l.
 Proof.
@@ -1037,7 +1036,7 @@ Proof. destruct r; [congruence | reflexivity]. Qed.
 Lemma walk_complete i : mtvrp_wf i -> (opn i = false \/ open_slack i) -> forall acts c node len t,
   (forall a, In a acts -> (a < nn i)%nat) -> (forall x, In x c -> (1 <= x <= n_of i)%nat) ->
   node = hd 0%nat c -> len = opath_len (dfun i) 0%nat (rev c) ->
-  t = dep_time (dfun i) (lo i) (sv i) 0%nat 0 (rev c) ->
+  t = dep_time (tfun i) (lo i) (sv i) 0%nat 0 (rev c) ->
   Forall (fun r => okD i r = true) (routes_aux acts c) ->
   walk_ok exact i node len t acts = true.
 Proof.
@@ -1050,9 +1049,9 @@ Proof.
   - apply Nat.eqb_eq in Ea. subst a. apply Forall_cons_iff in HF as [H1 H2]. rewrite andb_true_r.
     rewrite (IH [] 0%nat 0 0); try reflexivity; try exact H2; [|intros a Ha; apply Hra; right; exact Ha | intros x []].
     rewrite andb_true_r.
-    destruct (Hnode 0%nat Hnn) as (_ & _ & _ & _ & Hlo0 & _ & Hlh0 & Hd00 & _).
+    destruct (Hnode 0%nat Hnn) as (_ & _ & _ & _ & Hlo0 & _ & Hlh0 & Hd00 & Ht00 & _).
     destruct c as [|x c].
-    + cbn [hd rev opath_len dep_time] in *. subst node len t. rewrite Hd00. destruct (opn i); lia.
+    + cbn [hd rev opath_len dep_time] in *. subst node len t. rewrite Hd00, Ht00. destruct (opn i); lia.
     + assert (Hxr : (1 <= x <= n_of i)%nat) by (apply Hrc; left; reflexivity).
       assert (Hxn : (x < nn i)%nat) by (unfold n_of in Hxr; lia).
       rewrite route_ok_ne in H1 by (cbn [rev]; intros Hc; apply app_eq_nil in Hc as [_ Hc]; discriminate).
@@ -1107,16 +1106,15 @@ Proof.
     rewrite (IH (a :: c) _); [lia | cbn [rev]; rewrite load_snoc, Hu; reflexivity | exact HF'].
 Qed.
 
-(* every solution of the problem (speed 1; incl. action lists that never return to the depot at the end) is accepted,
+(* every solution of the problem (any speed; incl. action lists that never return to the depot at the end) is accepted,
    provided the instance passes the checker's own data asserts and, for open routes, leaves time to drive home *)
 Theorem mtvrp_checker_complete i acts :
-  mtvrp_wf i -> tt i = dist i -> data_ok exact i = true -> (opn i = false \/ open_slack i) ->
+  mtvrp_wf i -> data_ok exact i = true -> (opn i = false \/ open_slack i) ->
   mtvrp_feasible i acts -> (n_of i <= length acts)%nat ->
   mtvrp_checker exact i acts = true.
 Proof.
-  intros Hwf Hsp Hdata Hopen (Hocc & Hrng & HF) Hlen. pose proof (wf_parts i Hwf) as (Hnn & Hcap & Hlim & Hdl0 & Hdb0 & Hnode).
-  assert (Htd : tfun i = dfun i) by (unfold tfun, dfun; rewrite Hsp; reflexivity).
-  unfold route_okI in HF. rewrite Htd in HF. unfold routes in HF.
+  intros Hwf Hdata Hopen (Hocc & Hrng & HF) Hlen. pose proof (wf_parts i Hwf) as (Hnn & Hcap & Hlim & Hdl0 & Hdb0 & Hnode).
+  unfold route_okI in HF. unfold routes in HF.
   unfold mtvrp_checker. rewrite Hdata. rewrite !andb_true_iff. repeat split.
   - apply sorted_ok_iff. auto.
   - apply (walk_complete i Hwf Hopen acts [] 0%nat 0 0); try reflexivity; [|intros x []|exact HF].
@@ -1137,7 +1135,7 @@ Definition prec_inst : mtvrp_inst :=
      dist := [[0; 5; 9]; [5; 0; 4]; [9; 4; 0]]; tt := [[0; 5; 9]; [5; 0; 4]; [9; 4; 0]] |}.
 Theorem mtvrp_checker_precedence_refuted :
   exists (i : mtvrp_inst) (acts : list nat),
-    mtvrp_wf i /\ tt i = dist i /\ mtvrp_checker exact i acts = true /\ mtvrp_feasibleb i 0 acts = false /\
+    mtvrp_wf i /\ mtvrp_checker exact i acts = true /\ mtvrp_feasibleb i 0 acts = false /\
     Forall (fun r => prec_ok (dlf i) (dbf i) r = false) (removelast (routes acts)).
 Proof. exists prec_inst, [2; 1; 0]%nat. repeat (split; [vm_compute; reflexivity|]). repeat constructor. Qed.
 
@@ -1149,7 +1147,7 @@ Definition ret_inst : mtvrp_inst :=
      dist := [[0; 5; 80]; [5; 0; 75]; [80; 75; 0]]; tt := [[0; 5; 80]; [5; 0; 75]; [80; 75; 0]] |}.
 Theorem mtvrp_checker_final_return_refuted :
   exists (i : mtvrp_inst) (acts : list nat),
-    mtvrp_wf i /\ tt i = dist i /\ mtvrp_checker exact i acts = true /\ mtvrp_feasibleb i 0 acts = false /\
+    mtvrp_wf i /\ mtvrp_checker exact i acts = true /\ mtvrp_feasibleb i 0 acts = false /\
     mtvrp_checker exact i (acts ++ [0%nat]) = false.
 Proof. exists ret_inst, [1; 0; 2]%nat. repeat (split; [vm_compute; reflexivity|]). vm_compute; reflexivity. Qed.
 
@@ -1161,13 +1159,15 @@ Definition open_inst : mtvrp_inst :=
      dist := [[0; 80]; [80; 0]]; tt := [[0; 80]; [80; 0]] |}.
 Theorem mtvrp_checker_open_depot_deadline_refuted :
   exists (i : mtvrp_inst) (acts : list nat),
-    mtvrp_wf i /\ tt i = dist i /\ data_ok exact i = true /\
+    mtvrp_wf i /\ data_ok exact i = true /\
     adm (E:=MTVRP exact false) i acts = true /\ done (MTVRP exact false) i (run (E:=MTVRP exact false) i acts) = true /\
     mtvrp_feasibleb i 0 acts = true /\ mtvrp_checker exact i acts = false.
 Proof. exists open_inst, [1; 0]%nat. repeat (split; [vm_compute; reflexivity|]). vm_compute; reflexivity. Qed.
 
-(* (4) the clock of the checker advances by the distance, not by distance / speed: at speed 2 a mask-made feasible
-   solution is rejected, at speed 1/2 a late visit is accepted *)
+(* (4, FIXED by /repo ea27328, recorded as fixed in known_findings.json) the clock of the checker used to advance by
+   the distance, not by distance / speed.  The two old witnesses now behave as the problem definition says: at speed 2
+   the mask-made feasible solution is accepted, at speed 1/2 the late visit is rejected -- as instances of the two
+   theorems above, which hold for any speed *)
 Definition fast_inst : mtvrp_inst :=
   {| dl := [0; 32]; db := [0; 0]; cap := 64; lim := 100000; opn := false;
      tlo := [0; 0]; thi := [512; 64]; svc := [0; 0];
@@ -1176,13 +1176,8 @@ Definition slow_inst : mtvrp_inst :=
   {| dl := [0; 32]; db := [0; 0]; cap := 64; lim := 100000; opn := false;
      tlo := [0; 0]; thi := [512; 128]; svc := [0; 0];
      dist := [[0; 80]; [80; 0]]; tt := [[0; 160]; [160; 0]] |}.
-Theorem mtvrp_checker_ignores_speed_refuted :
-  (exists (i : mtvrp_inst) (acts : list nat),
-     mtvrp_wf i /\ adm (E:=MTVRP exact false) i acts = true /\ mtvrp_feasibleb i 0 acts = true /\ mtvrp_checker exact i acts = false) /\
-  (exists (i : mtvrp_inst) (acts : list nat),
-     mtvrp_wf i /\ mtvrp_feasibleb i 0 acts = false /\ mtvrp_checker exact i acts = true).
-Proof.
-  split.
-  - exists fast_inst, [1; 0]%nat. repeat (split; [vm_compute; reflexivity|]). vm_compute; reflexivity.
-  - exists slow_inst, [1; 0]%nat. repeat (split; [vm_compute; reflexivity|]). vm_compute; reflexivity.
-Qed.
+Example mtvrp_checker_respects_speed :
+  mtvrp_wfb fast_inst = true /\ adm (E:=MTVRP exact true) fast_inst [1; 0]%nat = true /\
+  mtvrp_feasibleb fast_inst 0 [1; 0]%nat = true /\ mtvrp_checker exact fast_inst [1; 0]%nat = true /\
+  mtvrp_wfb slow_inst = true /\ mtvrp_feasibleb slow_inst 0 [1; 0]%nat = false /\ mtvrp_checker exact slow_inst [1; 0]%nat = false.
+Proof. vm_compute. repeat split. Qed.
